@@ -352,7 +352,7 @@ async def run_h1(env: Any, case: Dict[str, Any], app: Any) -> Dict[str, Any]:
             await env.settle0()
             tm.error_deadline = t0 + T
             tm.notes.append(f"error {what} at {t0}")
-            await env.sleep(T)
+            await env.sleep(T + 4 * EPS)  # (just past the deadline: at it, nothing is late yet)
             await env.settle0()
             tm.check(where + " (T after the error response)")
             break
